@@ -62,7 +62,7 @@ Section Sound.
     | MWith | MOff | MAbove | MBelow | MFork | MBracket | MTry | MDipN _
     | MReduce | MScan | MFold | MRows | MEach | MInventory | MTable | MTuples | MGroup | MPartition
     | MSpawn | MPool | MRepeat | MRepeatWithInverse | MStencil | MReduceContent | MReduceDepth _
-    | MHandleSig | MBothImpl _ _ | MUnBothImpl _ _ | MDo => true
+    | MHandleSig | MDo => true
     | _ => false end.
   (** modifiers checked in context whose run-time form uses the stored signature *)
   Definition needs_exact (mk : modk) : bool :=
@@ -757,6 +757,126 @@ Section Sound.
           rewrite skipn_skipn. f_equal. lia.
   Qed.
 
+  (** the same two loops at the level of the simulation, for operands WITH a context (under) effect:
+      the context part of the checker state after k runs is k applications of the operand's under
+      signature; check.rs claims the coarser (k*sua, k*suo), which has the same height and a minimum
+      at least as deep ([iterv_le_claim]) *)
+  Fixpoint iterv (k a o : nat) (v : vs) : vs :=
+    match k with O => v | S k' => vao a o (iterv k' a o v) end.
+  Lemma iterv_h k a o v : h (iterv k a o v) = (h v + Z.of_nat k * (Z.of_nat o - Z.of_nat a))%Z.
+  Proof. induction k as [|k IH]; cbn [iterv]; [lia|]. rewrite vao_h, IH. lia. Qed.
+  Lemma iterv_m_mono k a o v : m v <= m (iterv k a o v).
+  Proof. induction k as [|k IH]; cbn [iterv]; [lia|]. rewrite vao_m. lia. Qed.
+  Lemma iterv_m_step k a o v : m (iterv k a o v) <= m (iterv (S k) a o v).
+  Proof. cbn [iterv]. rewrite vao_m. lia. Qed.
+  Lemma iterv_le_claim k a o v : m (iterv k a o v) <= m (vao (k * a) (k * o) v).
+  Proof.
+    induction k as [|k IH]; cbn [iterv]; [rewrite vao_m; lia|].
+    rewrite vao_m, iterv_h. rewrite vao_m in *.
+    assert (E1 : (Z.of_nat (S k * a) = Z.of_nat a + Z.of_nat k * Z.of_nat a)%Z) by lia.
+    assert (E2 : (Z.of_nat (k * a) = Z.of_nat k * Z.of_nat a)%Z) by lia.
+    assert (P0 : (0 <= Z.of_nat k * Z.of_nat o)%Z) by lia.
+    rewrite E1. rewrite E2 in IH.
+    set (ka := (Z.of_nat k * Z.of_nat a)%Z) in *. set (ko := (Z.of_nat k * Z.of_nat o)%Z) in *.
+    replace (Z.of_nat k * (Z.of_nat o - Z.of_nat a))%Z with (ko - ka)%Z by (unfold ko, ka; lia).
+    lia.
+  Qed.
+  Lemma iterv_succ_r k a o v : iterv (S k) a o v = iterv k a o (vao a o v).
+  Proof. induction k as [|k IH]; cbn [iterv] in *; [reflexivity|]. rewrite IH. reflexivity. Qed.
+
+  Lemma both_loop_post_u fuel sg f init uinit s0 :
+    framed_at fuel sg f ->
+    forall k sk un s,
+    sim sk init (stk s) -> sim un uinit (und s) -> hid s = hid s0 ->
+    m (vao (sa sg * k) (so sg * k) sk) <= length init -> m (iterv k (sua sg) (suo sg) un) <= length uinit ->
+    post (vao (sa sg * k) (so sg * k) sk, iterv k (sua sg) (suo sg) un) init uinit s0
+         (both_loop (exec fuel f) (sa sg) k s).
+  Proof.
+    intros Fr. induction k as [|k IHk]; intros sk un s S1 S2 Hh F1 F2.
+    - cbn [both_loop iterv]. rewrite !Nat.mul_0_r in *. apply post_ok; auto. split; cbn [fst snd]; auto.
+      rewrite (vao00 _ _ _ S1). auto.
+    - cbn [both_loop]. destruct k as [|k'].
+      + cbn [iterv] in *. rewrite !Nat.mul_1_r in *.
+        pose proof (framed_post fuel sg f (sk, un) init uinit s0 s Fr (conj S1 S2)) as Hp.
+        cbn [handle_sig fst snd] in Hp. apply Hp; auto. split; auto.
+      + set (k := S k') in *.
+        assert (Ea : sa sg * S k = sa sg + sa sg * k) by lia.
+        assert (Eo : so sg * S k = so sg + so sg * k) by lia.
+        rewrite Ea, Eo in *. set (ak := sa sg * k) in *. set (ok := so sg * k) in *.
+        assert (Hn : sa sg <= length (stk s)).
+        { eapply (sim_enough (sa sg) sk); eauto. revert F1. vsimp. lia. }
+        unfold need. assert (En : (sa sg <=? length (stk s)) = true) by (apply Nat.leb_le; auto).
+        rewrite En. cbn [negb].
+        assert (Sp : sim (vpop (sa sg) sk) init (skipn (sa sg) (stk s))).
+        { apply sim_pop; auto. revert F1. vsimp. lia. }
+        eapply (post_bind (vao ak ok (vpop (sa sg) sk), iterv k (sua sg) (suo sg) un)).
+        * apply (IHk (vpop (sa sg) sk) un (set_stk s (skipn (sa sg) (stk s)))); auto.
+          -- revert F1. vsimp. lia.
+          -- pose proof (iterv_m_step k (sua sg) (suo sg) un). lia.
+        * split; cbn [fst snd]; [revert F1; vsimp; lia | apply iterv_m_step].
+        * intros s2 _ [A B] Hh2. cbn [fst snd] in A, B.
+          assert (Sv : sim (vpush (sa sg) (vao ak ok (vpop (sa sg) sk))) init
+                           (firstn (sa sg) (stk s) ++ stk s2)).
+          { apply sim_push'; auto. rewrite firstn_length. lia. }
+          pose proof (framed_post fuel sg f
+                        (vpush (sa sg) (vao ak ok (vpop (sa sg) sk)), iterv k (sua sg) (suo sg) un)
+                        init uinit s0 (set_stk s2 (firstn (sa sg) (stk s) ++ stk s2)) Fr) as Hp.
+          cbn [handle_sig fst snd] in Hp.
+          eapply post_deepen.
+          -- apply Hp; [split; cbn [fst snd set_stk stk und]; auto | | exact Hh2].
+             split; cbn [fst snd]; [cbn [handle_sig fst snd]; revert F1; vsimp; lia | exact F2].
+          -- cbn [handle_sig fst snd]. vsimp. lia.
+          -- reflexivity.
+          -- split; cbn [handle_sig fst snd]; [revert F1; vsimp; lia | cbn [iterv]; lia].
+          -- split; cbn [fst snd]; auto.
+  Qed.
+
+  Lemma unboth_loop_post_u fuel sg f init uinit s0 :
+    framed_at fuel sg f ->
+    forall k sk un s,
+    sim sk init (stk s) -> sim un uinit (und s) -> hid s = hid s0 ->
+    m (vao (sa sg * k) (so sg * k) sk) <= length init -> m (iterv k (sua sg) (suo sg) un) <= length uinit ->
+    post (vao (sa sg * k) (so sg * k) sk, iterv k (sua sg) (suo sg) un) init uinit s0
+         (unboth_loop (exec fuel f) (so sg) k s).
+  Proof.
+    intros Fr. induction k as [|k IHk]; intros sk un s S1 S2 Hh F1 F2.
+    - cbn [unboth_loop iterv]. rewrite !Nat.mul_0_r in *. apply post_ok; auto. split; cbn [fst snd]; auto.
+      rewrite (vao00 _ _ _ S1). auto.
+    - cbn [unboth_loop]. destruct k as [|k'].
+      + cbn [iterv] in *. rewrite !Nat.mul_1_r in *.
+        pose proof (framed_post fuel sg f (sk, un) init uinit s0 s Fr (conj S1 S2)) as Hp.
+        cbn [handle_sig fst snd] in Hp. apply Hp; auto. split; auto.
+      + set (k := S k') in *.
+        assert (Ea : sa sg * S k = sa sg + sa sg * k) by lia.
+        assert (Eo : so sg * S k = so sg + so sg * k) by lia.
+        rewrite Ea, Eo in *. rewrite iterv_succ_r in *. set (ak := sa sg * k) in *. set (ok := so sg * k) in *.
+        pose proof (iterv_m_mono k (sua sg) (suo sg) (vao (sua sg) (suo sg) un)) as Hmm.
+        eapply (post_bind (vao (sa sg) (so sg) sk, vao (sua sg) (suo sg) un)).
+        * pose proof (framed_post fuel sg f (sk, un) init uinit s0 s Fr (conj S1 S2)) as Hp.
+          cbn [handle_sig fst snd] in Hp. apply Hp; auto.
+          split; cbn [handle_sig fst snd]; [revert F1; vsimp; lia | lia].
+        * split; cbn [fst snd]; [revert F1; vsimp; lia | exact Hmm].
+        * intros s1 _ [A B] Hh1. cbn [fst snd] in A, B.
+          assert (Ho : so sg <= length (stk s1)).
+          { eapply (sim_enough (so sg) (vao (sa sg) (so sg) sk)); eauto. revert F1. vsimp. lia. }
+          unfold need. assert (En : (so sg <=? length (stk s1)) = true) by (apply Nat.leb_le; auto).
+          rewrite En. cbn [negb].
+          assert (Sp : sim (vpop (so sg) (vao (sa sg) (so sg) sk)) init (skipn (so sg) (stk s1))).
+          { apply sim_pop; auto. revert F1. vsimp. lia. }
+          eapply (post_bind (vao ak ok (vpop (so sg) (vao (sa sg) (so sg) sk)),
+                             iterv k (sua sg) (suo sg) (vao (sua sg) (suo sg) un))).
+          -- apply (IHk _ _ (set_stk s1 (skipn (so sg) (stk s1)))); auto.
+             revert F1. vsimp. lia.
+          -- split; cbn [fst snd]; [revert F1; vsimp; lia | lia].
+          -- intros s2 _ [A2 B2] Hh2. cbn [fst snd] in A2, B2. apply post_ok; auto.
+             split; cbn [fst snd set_stk stk und]; auto.
+             eapply sim_deepen.
+             ++ apply (sim_push' (so sg) (firstn (so sg) (stk s1))); [rewrite firstn_length; lia | exact A2].
+             ++ vsimp. lia.
+             ++ revert F1. vsimp. lia.
+             ++ exact F1.
+  Qed.
+
   Lemma bothk_post fuel : P fuel -> asm_ok ->
     forall (un_ : bool) r k sg f d e e' init uinit s,
     let mk := if un_ then MUnBothImpl r k else MBothImpl r k in
@@ -766,45 +886,34 @@ Section Sound.
   Proof.
     intros HP HA un_ r k sg f d [sk un] e' init uinit s mk Ht Hv [F1 F2] [S1 S2].
     cbn [fst snd] in S1, S2.
-    assert (Hig : ignores_under mk = true) by (destruct un_; reflexivity).
-    assert (Ht' : (ignores_under mk = true -> Forall (fun a : sig * node => sua (fst a) = 0 /\ suo (fst a) = 0) [(sg, f)]) /\
-                  tree_ok f /\ stored_ok sg f).
-    { destruct un_; cbn [mk tree_ok fst snd] in Ht; destruct Ht as (_ & HnoU & _ & Tf & Of & _); auto. }
-    destruct Ht' as (HnoU & Tf & Of). clear Ht.
-    specialize (HnoU Hig). inversion HnoU as [|? ? [U1 U2] _]; subst; cbn [fst] in *.
+    assert (Ht' : tree_ok f /\ stored_ok sg f).
+    { destruct un_; cbn [mk tree_ok fst snd] in Ht; destruct Ht as (_ & _ & _ & Tf & Of & _); auto. }
+    destruct Ht' as (Tf & Of). clear Ht.
     pose proof (framed_of_P _ _ _ HP HA Tf Of) as Fr.
-    assert (Hb : frames_all (exec fuel f) (sa sg) (so sg)).
-    { intros B U H. eapply body_frames_of_framed; eauto. }
-    assert (Ee : e' = (vao (sa sg * k) (so sg * k) sk, un) \/ r <> 0).
+    assert (Ee : e' = (vao (sa sg * k) (so sg * k) sk, vao (k * sua sg) (k * suo sg) un) \/ r <> 0).
     { destruct (Nat.eq_dec r 0) as [->|]; [left|right; auto].
       destruct un_; cbn [mk vnode] in Hv; destruct (MAX_NODE_DEPTH <? d); try discriminate;
         cbn [map fst snd opt_bind] in Hv; inversion Hv; subst; clear Hv;
         unfold handle_sig; cbn [fst snd sa so sua suo];
-        rewrite U1, U2, !Nat.mul_0_r, (vao00 _ _ _ S2), Nat.sub_0_r, Nat.add_0_r, (Nat.mul_comm k (so sg)); reflexivity. }
+        rewrite Nat.sub_0_r, Nat.add_0_r, (Nat.mul_comm k (so sg)); reflexivity. }
     destruct Ee as [->|Hr].
     2:{ destruct un_; cbn [mk Exec.exec]; destruct (Nat.eqb_spec r 0); try contradiction; exact I. }
     cbn [fst snd] in *.
-    assert (A1 : sa sg * k <= length (stk s)) by (eapply sim_enough; eauto).
+    pose proof (iterv_le_claim k (sua sg) (suo sg) un) as Hle.
+    assert (Hd : post (vao (sa sg * k) (so sg * k) sk, iterv k (sua sg) (suo sg) un) init uinit s
+                      (if un_ then unboth_loop (exec fuel f) (so sg) k s else both_loop (exec fuel f) (sa sg) k s)).
+    { destruct un_; [apply unboth_loop_post_u | apply both_loop_post_u]; auto; lia. }
+    assert (Hfin : post (vao (sa sg * k) (so sg * k) sk, vao (k * sua sg) (k * suo sg) un) init uinit s
+                      (if un_ then unboth_loop (exec fuel f) (so sg) k s else both_loop (exec fuel f) (sa sg) k s)).
+    { eapply post_deepen; [exact Hd | reflexivity | | | split; auto].
+      - cbn [snd]. rewrite vao_h, iterv_h. lia.
+      - split; cbn [fst snd]; [lia | exact Hle]. }
+    assert (A1 : sa sg * k <= length (stk s)) by (eapply sim_enough; eauto; revert F1; vsimp; lia).
     destruct un_; cbn [mk Exec.exec]; destruct (Nat.eqb r 0); cbn [negb]; try exact I.
-    - pose proof (unboth_loop_frame _ _ _ Hb k s A1) as Hl.
-      destruct (unboth_loop (exec fuel f) (so sg) k s) as [s'|c s'| |]; [ | |exact I|exact I].
-      + destruct Hl as (outs & E1 & E2 & E3 & E4). apply post_ok; auto. split; cbn [fst snd].
-        * eapply frame_sim; eauto.
-        * rewrite E3. auto.
-      + destruct Hl as (j & uj & E1 & E2 & E3). apply post_err; auto. split; cbn [fst snd].
-        * eapply frame_simE; eauto.
-        * rewrite E2. apply simE_junk; auto.
+    - exact Hfin.
     - unfold need. assert (En : (sa sg * (k - 1) <=? length (stk s)) = true).
       { apply Nat.leb_le. assert (sa sg * (k - 1) <= sa sg * k) by (apply Nat.mul_le_mono_l; lia). lia. }
-      rewrite En. cbn [negb].
-      pose proof (both_loop_frame _ _ _ Hb k s A1) as Hl.
-      destruct (both_loop (exec fuel f) (sa sg) k s) as [s'|c s'| |]; [ | |exact I|exact I].
-      + destruct Hl as (outs & E1 & E2 & E3 & E4). apply post_ok; auto. split; cbn [fst snd].
-        * eapply frame_sim; eauto.
-        * rewrite E3. auto.
-      + destruct Hl as (j & uj & E1 & E2 & E3). apply post_err; auto. split; cbn [fst snd].
-        * eapply frame_simE; eauto.
-        * rewrite E2. apply simE_junk; auto.
+      rewrite En. cbn [negb]. exact Hfin.
   Qed.
 
   Lemma onsub_post fuel : P fuel -> asm_ok ->
